@@ -32,6 +32,8 @@ type c13Spec struct {
 	Pattern    []string `json:"pattern"`             // per ping: A | L (answered late, < interval/2) | S | N | R
 	CloseAfter int      `json:"close_after"`         // the harness closes the session after this many intervals (if still open)
 	CloseErr   bool     `json:"close_err,omitempty"` // the transport's Close reports an error although it closes
+	Hand       string   `json:"hand,omitempty"`      // how the session came about: "" legacy initialize | fallback (client asked for its default version, the peer only knows initialize) | none (server: the peer never sends initialize) | discover (server: the peer opens with server/discover)
+	Pending    bool     `json:"pending,omitempty"`   // a user call that the peer never answers is outstanding (no deadline)
 }
 
 func genC13(r *vh.Rand, idx int) c13Spec {
@@ -62,6 +64,14 @@ func genC13(r *vh.Rand, idx int) c13Spec {
 	}
 	s.CloseAfter = n + r.Range(1, 4)
 	s.CloseErr = r.Chance(1, 4)
+	if r.Chance(1, 3) {
+		if s.Side == "client" {
+			s.Hand = "fallback"
+		} else {
+			s.Hand = r.Choose("none", "discover")
+		}
+	}
+	s.Pending = r.Chance(1, 4)
 	return s
 }
 
@@ -114,6 +124,14 @@ func runC13(c *vh.Case, spec c13Spec) {
 		case "initialize":
 			sc.Inject(vhm.Resp(req.ID, vhm.InitializeResultJSON("2025-06-18")))
 			return nil
+		case "server/discover":
+			sc.Inject(vhm.ErrResp(req.ID, -32601, "method not found: server/discover", ""))
+			return nil
+		case "tools/list", "roots/list":
+			if spec.Pending {
+				log.Add("user-call-received")
+				return nil // never answered
+			}
 		case "ping":
 			i := nPing
 			nPing++
@@ -152,14 +170,25 @@ func runC13(c *vh.Case, spec c13Spec) {
 	}
 	var closeFn func() error
 	var waitFn func() error
+	var userCall func() error
+	// the user's own call has no deadline; the user gives up on it only when the scenario ends
+	uctx, ucancel := context.WithCancel(ctx)
+	defer ucancel()
 	if spec.Side == "client" {
 		client := mcp.NewClient(&mcp.Implementation{Name: "c", Version: "1"}, &mcp.ClientOptions{KeepAlive: iv, KeepAliveFailureThreshold: spec.Threshold})
-		cs, err := client.Connect(ctx, sc, &mcp.ClientSessionOptions{ProtocolVersion: "2025-06-18"})
+		cso := &mcp.ClientSessionOptions{ProtocolVersion: "2025-06-18"}
+		if spec.Hand == "fallback" {
+			cso = nil
+		}
+		cs, err := client.Connect(ctx, sc, cso)
 		if err != nil {
 			c.Inconclusive("connect: %v", err)
 			return
 		}
 		closeFn, waitFn = cs.Close, cs.Wait
+		if spec.Pending {
+			userCall = func() error { _, err := cs.ListTools(uctx, nil); return err }
+		}
 	} else {
 		server := mcp.NewServer(&mcp.Implementation{Name: "s", Version: "1"}, &mcp.ServerOptions{KeepAlive: iv, KeepAliveFailureThreshold: spec.Threshold})
 		ss, err := server.Connect(ctx, sc, nil)
@@ -167,16 +196,35 @@ func runC13(c *vh.Case, spec c13Spec) {
 			c.Inconclusive("connect: %v", err)
 			return
 		}
-		sc.Inject(vhm.Req("init", "initialize", `{"protocolVersion":"2025-06-18","capabilities":{},"clientInfo":{"name":"x","version":"1"}}`))
-		sc.Inject(vhm.Req(nil, "notifications/initialized", `{}`))
+		switch spec.Hand {
+		case "none":
+		case "discover":
+			sc.Inject(vhm.Req("disc", "server/discover", `{"_meta":{"io.modelcontextprotocol/protocolVersion":"2026-07-28","io.modelcontextprotocol/clientCapabilities":{},"io.modelcontextprotocol/clientInfo":{"name":"x","version":"1"}}}`))
+		default:
+			sc.Inject(vhm.Req("init", "initialize", `{"protocolVersion":"2025-06-18","capabilities":{"roots":{}},"clientInfo":{"name":"x","version":"1"}}`))
+			sc.Inject(vhm.Req(nil, "notifications/initialized", `{}`))
+		}
 		closeFn, waitFn = ss.Close, ss.Wait
+		if spec.Pending && spec.Hand == "" {
+			userCall = func() error { _, err := ss.ListRoots(uctx, nil); return err }
+		}
 	}
 	log.Add("keepalive-started")
 	go func() {
 		waitFn()
 		log.Add("wait-returned")
 	}()
+	if userCall != nil {
+		go func() {
+			synctestWait()
+			log.Add("user-call")
+			err := userCall()
+			log.Add("user-call-returned", "err", fmt.Sprint(err))
+		}()
+	}
 	time.Sleep(time.Duration(spec.CloseAfter)*iv + iv/4)
+	ucancel()
+	synctestWait()
 	log.Add("harness-close")
 	closeFn()
 	synctestWait()
@@ -303,6 +351,31 @@ func decideC13(c *vh.Case, spec c13Spec) {
 	} else if tclose != harnessClose {
 		c.Violate("live-session-closed", "the session was closed at %v, before the harness closed it at %v, although no run of %d consecutive failures occurred (pattern %v)", time.Duration(tclose)*time.Microsecond, time.Duration(harnessClose)*time.Microsecond, thr, spec.Pattern)
 		return
+	}
+	// a user call that was waiting for the dead peer ends with the session, and says why
+	if wantClose >= 0 {
+		issued := false
+		var ret *vh.Event
+		for _, e := range c.Log.Events() {
+			e := e
+			switch e.Kind {
+			case "user-call":
+				issued = true
+			case "user-call-returned":
+				ret = &e
+			}
+		}
+		if issued {
+			if ret == nil || ret.T != wantClose {
+				c.Violate("pending-call-outlives-dead-session", "keep-alive closed the session at %v but the user call waiting for the dead peer returned at %v", time.Duration(wantClose)*time.Microsecond, ret)
+				return
+			}
+			if msg := fmt.Sprint(ret.F["err"]); !strings.Contains(msg, "connection closed") {
+				c.Violate("pending-call-error", "the user call that ended with the session reports %q, which does not identify the connection as closed", msg)
+				return
+			}
+			c.Count("pending_calls_failed_by_keepalive", 1)
+		}
 	}
 	c.Count("pings", len(got))
 	if failures >= 1 && (recovered || wantClose >= 0) {
